@@ -121,15 +121,18 @@ class Driver:
                 self.ctor_exc = repr(e)[:120]
         if self.obj is not None:
             self.do_obs()      # event 1: the observers before anything is requested
-            with contextlib.redirect_stdout(self.out):
-                try:
-                    iter(self.obj)     # what `for action in schedule:` does first; requests no action
-                except Exception:
-                    pass
+            if not self.cfg.get("bare"):
+                with contextlib.redirect_stdout(self.out):
+                    try:
+                        iter(self.obj)     # what `for action in schedule:` does first; requests no action
+                    except Exception:
+                        pass
             self.do_obs()      # event 2: ... and after iter(schedule)
 
     def observe(self):
         o = self.obj
+        if self.cfg.get("bare"):          # reference runs: bare next() calls, no observer is ever read
+            return [0, 0, -1, 0, 0, 0]
 
         def g(name):
             try:
